@@ -550,3 +550,79 @@ func (w *vWorld) setPodCPU(p *vPod, cpu int64) {
 	}}
 	p.obj = &obj
 }
+
+
+// priorScan runs an earlier, uneventful scan of the same controller before the
+// snapshot under test: every node is shown untainted, schedulable and
+// un-annotated, every pod sits on the group's first node and utilisation is in
+// the idle band, so escalator does nothing but fill its in-memory state
+// (node->pods map, cached node size, delta). Then the cluster is put back to
+// the snapshot the harness built. Anything escalator remembers wrongly from
+// the earlier scan shows up in the scan under test.
+func (w *vWorld) priorScan(g int) {
+	type nodeSave struct {
+		obj       *v1.Node
+		class     int
+		cordoned  bool
+		annotated bool
+		annotKey  bool
+		taintAge  int64
+		taintTs   int64
+		groupPods int
+	}
+	type podSave struct {
+		obj    *v1.Pod
+		node   int
+		daemon bool
+		cpu    int64
+	}
+	var ns []nodeSave
+	var ps []podSave
+	first := -1
+	count := int64(0)
+	for i, n := range w.nodes {
+		ns = append(ns, nodeSave{n.obj, n.class, n.cordoned, n.annotated, n.annotKey, n.taintAge, n.taintTs, n.groupPods})
+		if n.group != g {
+			continue
+		}
+		if first < 0 {
+			first = i
+		}
+		count++
+		plain := copyNode(n.obj)
+		plain.Spec.Taints = nil
+		plain.Spec.Unschedulable = false
+		plain.Annotations = nil
+		n.obj, n.class, n.cordoned, n.annotated, n.annotKey = plain, tcNone, false, false, false
+	}
+	npods := int64(0)
+	for _, p := range w.pods {
+		if p.group == g {
+			npods++
+		}
+	}
+	for _, p := range w.pods {
+		ps = append(ps, podSave{p.obj, p.node, p.daemon, p.cpu})
+		if p.group != g || first < 0 {
+			continue
+		}
+		w.movePod(p, first, false)
+		// half-way between the upper taint threshold and the scale-up threshold
+		o := w.groups[g]
+		pct10 := int64(o.TaintUpperCapacityThresholdPercent+o.ScaleUpThresholdPercent) * 5
+		w.setPodCPU(p, count*w.cpuPerNode*pct10/1000/npods)
+	}
+	mut := w.mutations(0)
+	_ = w.ctrl.RunOnce()
+	// histories whose earlier scan acted (e.g. a max_node_age rotation) are not this shape's subject
+	verifAssume(w.mutations(0) == mut)
+	for i, n := range w.nodes {
+		s := ns[i]
+		n.obj, n.class, n.cordoned, n.annotated, n.annotKey = s.obj, s.class, s.cordoned, s.annotated, s.annotKey
+		n.taintAge, n.taintTs, n.groupPods = s.taintAge, s.taintTs, s.groupPods
+	}
+	for i, p := range w.pods {
+		s := ps[i]
+		p.obj, p.node, p.daemon, p.cpu = s.obj, s.node, s.daemon, s.cpu
+	}
+}
